@@ -173,7 +173,7 @@ class Justifications:
         # place, or in a helper that is handed one of the two lists at each of its call sites
         cp = prog.cls('adv_shell.common', 'CppPorts')
         sites = self.ex._ctor_sites(cp)
-        if len(sites) < 2:
+        if not sites:
             return None
 
         def side_list(f_: FuncInfo, e_: ast.expr, depth: int = 0) -> bool:
@@ -846,7 +846,16 @@ def _rejects(ctx, ex: ExcAnalysis, abs_: Abs):
 
     txt = lambda t: ast.unparse(t)
     # unknown encapsulee: either an explicit emptiness guard in build or the lookup goes through get_single_instance
-    has_guard(build, lambda t: '.items' in txt(t) and isinstance(t, ast.UnaryOp), 'unknown encapsulee')
+    # (in build itself, or at the top of a lookup helper that build calls unconditionally)
+    lookup_fn = build
+    if not any('.items' in txt(s_.test) and isinstance(s_.test, ast.UnaryOp) for _k, s_, _e in guards(build)):
+        for c_ in iter_own_nodes(build.node):
+            if isinstance(c_, ast.Call) and flow.unconditional(c_):
+                for g_ in ctx.cg.env(build).resolve_call(c_):
+                    if isinstance(g_, FuncInfo) and g_.module.name.startswith('dznpy.adv_shell') and lookup_fn is build and \
+                            any('.items' in txt(s_.test) and isinstance(s_.test, ast.UnaryOp) for _k, s_, _e in guards(g_)):
+                        lookup_fn = g_
+    has_guard(lookup_fn, lambda t: '.items' in txt(t) and isinstance(t, ast.UnaryOp), 'unknown encapsulee')
     has_guard(cde, lambda t: txt(t).count('isinstance(encapsulee') >= 2 or
               ('isinstance(encapsulee' in txt(t) and 'System' in txt(t) and 'Component' in txt(t)),
               'encapsulee that is neither system nor component')
